@@ -274,6 +274,42 @@ fn check_ids(ids: &[u8], big_endian: bool) -> CheckResult {
                     }
                 }
             }
+            // the same message followed by a few stray bytes and a second record (other ids): behind junk, too, the FIRST
+            // record is the one that is returned
+            {
+                let mut second = b.clone();
+                second[12..16].copy_from_slice(b"ZZZ9");
+                second[20..24].copy_from_slice(b"YYY8");
+                for junk in [&b""[..], &b"q"[..]] {
+                    let mut buf = junk.to_vec();
+                    buf.extend_from_slice(&b);
+                    buf.extend_from_slice(b"zz\0");
+                    buf.extend_from_slice(&second);
+                    let r = guard(|| dlt_message(&buf, None, true).map(|(rest, pm)| (rest.len(), pm))).map_err(|p| Violation::from_panic(&format!("dlt_message on {}", hex_short(&buf)), &p))?;
+                    match r {
+                        Ok((rest, ParsedMessage::Item(m1))) if rest == 3 + second.len() && m1.header.ecu_id.clone().unwrap_or_default() == got[1] && m1.storage_header.as_ref().map(|s| s.ecu_id.clone()).unwrap_or_default() == got[0] => {}
+                        other => return Err(viol!("ids:first-of-two-records", "record with id bytes {} + 3 stray bytes + a second record, {} junk bytes in front: expected the first record and {} bytes left, got {}", hex_short(ids), junk.len(), 3 + second.len(), short_dbg(&other))),
+                    }
+                }
+            }
+            // a message without extended header (ids: storage ECU id and header ECU id only), alone in the buffer
+            {
+                let mut nb = vec![];
+                nb.extend_from_slice(b"DLT\x01\x01\x02\x03\x04\x05\x06\x07\x08");
+                nb.extend_from_slice(&ids[0..4]);
+                nb.extend_from_slice(&[0x20 | WEID | if big_endian { MSBF } else { 0 }, 7, 0, 4 + 4 + 6]);
+                nb.extend_from_slice(&ids[4..8]);
+                nb.extend_from_slice(&[1, 2, 3, 4, 5, 6]);
+                for tail in [0usize, 1, 9, 10] {
+                    let mut buf = nb.clone();
+                    buf.extend(std::iter::repeat(b'.').take(tail));
+                    let r = guard(|| dlt_message(&buf, None, true).map(|(rest, pm)| (rest.len(), pm))).map_err(|p| Violation::from_panic(&format!("dlt_message on {}", hex_short(&buf)), &p))?;
+                    match r {
+                        Ok((rest, ParsedMessage::Item(m0))) if rest == tail && m0.header.ecu_id.clone().unwrap_or_default() == got[1] && m0.storage_header.as_ref().map(|s| s.ecu_id.clone()).unwrap_or_default() == got[0] => {}
+                        other => return Err(viol!("ids:no-extended-header", "message without extended header, id bytes {}, {} bytes behind it: expected the message with the same ECU ids, got {}", hex_short(&ids[..8]), tail, short_dbg(&other))),
+                    }
+                }
+            }
             // "with fewer than n bytes available it reports incomplete": the buffer ends inside each of the four id
             // fields in turn (0..3 of its bytes present), without and with junk in front of the storage header; any
             // hint must not exceed the bytes that are missing
